@@ -206,6 +206,8 @@ func C02(ctx *core.Ctx) {
 	typedefResolverAgreement(ctx, cc, "C02.R9")
 	scalarClassification(ctx, cc, "C02.R11")
 	c02UnionGuard(ctx, cc)
+	c02DoubleWidth(ctx, cc)
+	c02ArgsNormalised(ctx, cc)
 	c10EnumMarker(ctx, cc, "C02.R15")
 	ctx.Rule("C02.R12", "typedef/type resolution is not cached across programs: a generator map field that memoises what the current program resolves is dropped where the program is switched", 1)
 	generatorCaches(ctx, cc, "C02.R12")
